@@ -113,3 +113,140 @@ def install(reg: Registry):
     reg.add(Contract(MM + ':Model.association_to_dict', {'self': Obj(MODEL), 'association': Obj(ASSOC)}, returns=Dict(T.str, T.val),
                      requires=s_requires, ensures=s_ensures, modifies=LIST_ARRAYS + DICT_ARRAYS + ('cls', 'own_obj'), allocates=True,
                      props=('C07',), note='PJS: `association.extras.as_dict()` is modelled as a shallow copy of the extras dict (assumed)'))
+
+
+    # ---- Model.asset_to_dict: (asset.id, {'name', 'type', 'defenses' iff any non-default defense, 'extras' iff non-empty})
+    DefensesOf = z3.Function('DefensesOf', Addr, Addr)      # abstract: the dict get_asset_defenses builds for an asset (PJS internals)
+    reg.add(Contract(MM + ':Model.get_asset_defenses', {'self': Obj(MODEL), 'asset': Obj(ASSET), 'include_defaults': T.bool}, returns=Dict(T.str, T.val),
+                     trusted=True, allocates=True, modifies=DICT_ARRAYS + ('cls', 'own_obj'),
+                     ensures=lambda c: [('fresh', z3.And(c.res >= c.old.alloc, c.res < c.h.alloc, c.h.cls(c.res) == CLS_DICT))] + region_same(c.old, c.h),
+                     note='PJS internals (asset._properties, json_schema lookups, value.default()): a fresh dict of the non-default defense values; content not specified'))
+    reg.contracts[MM + ':Model.get_asset_defenses'].defaults = {'include_defaults': sv_bool(False)}
+
+    def x_ensures(c):
+        o, h, x = c.old, c.h, c.asset
+        R = c.result.elts[1].t
+        k = z3.Const('k!xe', Val)
+        Dd = v_a(h.val(R, K('defenses')))
+        X = o.f('extras', x)
+        XR = v_a(h.val(R, K('extras')))
+        return region_same(o, h) + [
+            ('id', to_val(c.result.elts[0]) == o.f('id', x)),
+            ('fresh', z3.And(R >= o.alloc, R < h.alloc, h.cls(R) == CLS_DICT)),
+            ('name-type', z3.And(h.val(R, K('name')) == VStr(o.f('name', x)), h.val(R, K('type')) == VStr(o.f('type', x)))),
+            ('keys', FA([k], z3.Implies(h.has(R, k), z3.Or(k == K('name'), k == K('type'), k == K('defenses'), k == K('extras'))), [h.has(R, k)])),
+            ('required-keys', z3.And(h.has(R, K('name')), h.has(R, K('type')))),
+            ('defenses', z3.Implies(h.has(R, K('defenses')), z3.And(is_VRef(h.val(R, K('defenses'))), Dd >= o.alloc, h.cls(Dd) == CLS_DICT, h.size(Dd) > 0))),
+            ('extras', z3.And(h.has(R, K('extras')) == (o.size(X) > 0),
+                              z3.Implies(o.size(X) > 0, z3.And(is_VRef(h.val(R, K('extras'))), XR >= o.alloc, h.cls(XR) == CLS_DICT,
+                                                               z3.Select(h.arr['D_has'], XR) == z3.Select(o.arr['D_has'], X),
+                                                               z3.Select(h.arr['D_val'], XR) == z3.Select(o.arr['D_val'], X))))),
+        ]
+    reg.add(Contract(MM + ':Model.asset_to_dict', {'self': Obj(MODEL), 'asset': Obj(ASSET)},
+                     returns=T('tuple', elts=[T('int', opt=True), Dict(T.str, T.val)]), ensures=x_ensures,
+                     modifies=DICT_ARRAYS + ('cls', 'own_obj'), allocates=True, props=('C07',),
+                     note='the defense values come from get_asset_defenses (assumed: python_jsonschema_objects internals)'))
+
+
+    # ---- Model._to_dict: metadata + one entry per asset (keyed by id), one list element per association (in order), one entry per
+    # attacker (keyed by id).  Requires distinct attacker ids: two attackers with one id collide on their key (known finding C07).
+    from .lang_spec import LG
+    LCF = 'LanguageClassesFactory'
+    reg.schema.add_class(MODEL, {'lang_classes_factory': Obj(LCF)})
+    reg.schema.add_class(LG, {'metadata': Dict(T.str, T.val)})
+    LGF = reg.schema.storage(LCF, 'lang_graph')
+    VERSION = z3.Const('maltoolbox___version__', Str)
+    reg.module_consts = getattr(reg, 'module_consts', {})
+    reg.module_consts.setdefault(MM, {})['__version__'] = SV('str', VERSION)
+
+    def sub(h, R, key): return v_a(h.val(R, K(key)))
+
+    def m_requires(c):
+        o, M = c.old, c.self
+        x, y, a, b = A('x!mq'), A('y!mq'), A('a!mq'), A('b!mq')
+        kv = z3.Const('k!mq', Val)
+        XL, SL, AL = o.f('assets', M), o.f('associations', M), o.f('attackers', M)
+        MD = o.f('metadata', o.f(LGF, o.f('lang_classes_factory', M)))
+        return [('typed', z3.And(*[FA([kv], z3.Implies(o.bag(L_, kv) > 0, is_VRef(kv)), [o.bag(L_, kv)]) for L_ in (XL, SL, AL)])),
+                ('metadata', z3.And(o.has(MD, K('version')), o.has(MD, K('id')))),
+                ('asset-ids', FA([x], z3.Implies(o.cnt(XL, x) > 0, is_VInt(o.f('id', x))), [o.cnt(XL, x)])),
+                ('asset-ids-distinct', FA([x, y], z3.Implies(z3.And(o.cnt(XL, x) > 0, o.cnt(XL, y) > 0, o.f('id', x) == o.f('id', y)), x == y), [(o.cnt(XL, x), o.cnt(XL, y))])),
+                ('attacker-ids-distinct', FA([a, b], z3.Implies(z3.And(o.cnt(AL, a) > 0, o.cnt(AL, b) > 0, o.f('id', a) == o.f('id', b)), a == b), [(o.cnt(AL, a), o.cnt(AL, b))])),
+                ('associations-typed', FA([a], z3.Implies(o.cnt(SL, a) > 0, s_requires_of(o, a)), [o.cnt(SL, a)])),
+                ('attackers-typed', FA([a], z3.Implies(o.cnt(AL, a) > 0, z3.And(*[f for _, f in a_requires_of(o, a)])), [o.cnt(AL, a)]))]
+
+    def s_requires_of(o, s):
+        class C0: pass
+        C0.old, C0.association = o, s
+        return z3.And(*[f for _, f in s_requires(C0)])
+
+    def a_requires_of(o, a):
+        class C0: pass
+        C0.old, C0.attacker = o, a
+        return a_requires(C0)
+
+    def shape(o, h, R, M):
+        k = z3.Const('k!ms2', Val)
+        MDo = o.f('metadata', o.f(LGF, o.f('lang_classes_factory', M)))
+        MT, AS, SS, AT = sub(h, R, 'metadata'), sub(h, R, 'assets'), sub(h, R, 'associations'), sub(h, R, 'attackers')
+        fresh = lambda q: z3.And(q >= o.alloc, q < h.alloc)
+        return [('fresh', z3.And(fresh(R), h.cls(R) == CLS_DICT)),
+                ('keys', FA([k], h.has(R, k) == z3.Or(k == K('metadata'), k == K('assets'), k == K('associations'), k == K('attackers')), [h.has(R, k)])),
+                ('parts', z3.And(*[is_VRef(h.val(R, K(x))) for x in ('metadata', 'assets', 'associations', 'attackers')],
+                                 fresh(MT), fresh(AS), fresh(SS), fresh(AT), h.cls(MT) == CLS_DICT, h.cls(AS) == CLS_DICT, h.cls(SS) == CLS_LIST, h.cls(AT) == CLS_DICT,
+                                 z3.Distinct(R, MT, AS, AT))),
+                ('metadata', z3.And(h.val(MT, K('name')) == VStr(o.f('name', M)), h.val(MT, K('langVersion')) == o.val(MDo, K('version')),
+                                    h.val(MT, K('langID')) == o.val(MDo, K('id')), h.val(MT, K('MAL-Toolbox Version')) == VStr(VERSION)))]
+
+    def keyed(o, h, D, L, key_of, done=None, lo=None):
+        """dict D has one fresh-dict entry per (processed) member of L under key_of(member), and no other key"""
+        x = A('x!ky')
+        k = z3.Const('k!ky', Val)
+        inl = (lambda q: z3.Select(done, VRef(q)) > 0) if done is not None else (lambda q: o.cnt(L, q) > 0)
+        pat = (lambda q: z3.Select(done, VRef(q))) if done is not None else (lambda q: o.cnt(L, q))
+        e = lambda q: v_a(h.val(D, key_of(q)))
+        return z3.And(FA([x], z3.Implies(z3.And(inl(x), o.cnt(L, x) > 0), z3.And(h.has(D, key_of(x)), is_VRef(h.val(D, key_of(x))), e(x) >= o.alloc, e(x) < h.alloc,
+                                                                                h.cls(e(x)) == CLS_DICT, *(lo(x, e(x)) if lo else []))), [pat(x)]),
+                      FA([k], z3.Implies(h.has(D, k), z3.Exists([x], z3.And(inl(x), o.cnt(L, x) > 0, key_of(x) == k), patterns=[pat(x)])), [h.has(D, k)]))
+
+    def asset_entry(o, h):
+        return lambda x, e: [h.val(e, K('name')) == VStr(o.f('name', x)), h.val(e, K('type')) == VStr(o.f('type', x))]
+
+    def attacker_entry(o, h):
+        return lambda a, e: [h.has(e, K('name')), h.has(e, K('entry_points'))]
+
+    akey = lambda o: (lambda x: VInt(v_i(o.f('id', x))))
+    tkey = lambda o: (lambda a: o.f('id', a))
+
+    def assoc_list(o, h, SS, SL, upto):
+        j = z3.Int('j!al2')
+        e = lambda q: v_a(h.at(SS, q))
+        return z3.And(h.len(SS) == upto, FA([j], z3.Implies(z3.And(0 <= j, j < upto), z3.And(
+            is_VRef(h.at(SS, j)), e(j) >= o.alloc, e(j) < h.alloc, h.cls(e(j)) == CLS_DICT, h.has(e(j), VStr(o.f('clsname', v_a(o.at(SL, j))))))), [h.at(SS, j)]))
+
+    def inv_of(phase):
+        def inv(c: LCtx):
+            o, h, M = c.old, c.h, c.self
+            R = c.local('contents').t
+            XL, SL, AL = o.f('assets', M), o.f('associations', M), o.f('attackers', M)
+            AS, SS, AT = sub(h, R, 'assets'), sub(h, R, 'associations'), sub(h, R, 'attackers')
+            out = shape(o, h, R, M) + region_same(o, h)
+            out.append(('assets', keyed(o, h, AS, XL, akey(o), done=c.done if phase == 0 else None, lo=asset_entry(o, h))))
+            out.append(('associations', assoc_list(o, h, SS, SL, z3.IntVal(0) if phase == 0 else (c.i if phase == 1 else o.len(SL)))))
+            out.append(('attackers', keyed(o, h, AT, AL, tkey(o), done=c.done, lo=attacker_entry(o, h)) if phase == 2 else z3.Select(h.arr['D_has'], AT) == EMPTY_HAS))
+            return out
+        return inv
+
+    def m_ensures(c):
+        o, h, M, R = c.old, c.h, c.self, c.res
+        XL, SL, AL = o.f('assets', M), o.f('associations', M), o.f('attackers', M)
+        return shape(o, h, R, M) + region_same(o, h) + [
+            ('one-entry-per-asset', keyed(o, h, sub(h, R, 'assets'), XL, akey(o), lo=asset_entry(o, h))),
+            ('one-element-per-association', assoc_list(o, h, sub(h, R, 'associations'), SL, o.len(SL))),
+            ('one-entry-per-attacker', keyed(o, h, sub(h, R, 'attackers'), AL, tkey(o), lo=attacker_entry(o, h)))]
+
+    reg.add(Contract(MM + ':Model._to_dict', {'self': Obj(MODEL)}, returns=Dict(T.str, T.val), requires=m_requires, ensures=m_ensures,
+                     modifies=LIST_ARRAYS + DICT_ARRAYS + ('cls', 'own_obj'), allocates=True,
+                     loops={0: LoopSpec(inv_of(0), iter_src='self.assets'), 1: LoopSpec(inv_of(1), iter_src='self.associations'),
+                            2: LoopSpec(inv_of(2), iter_src='self.attackers')}, props=('C07',),
+                     note='requires pairwise different attacker ids: _to_dict keys attackers by id (the known finding of C07 is a model that violates this)'))
